@@ -1,10 +1,12 @@
 import Driver.Proto
 import Driver.Tcp
+import Driver.MType
 open Driver
 
 def dispatch (l : Line) : Verdict :=
   match l.fam with
   | "tcp" => TcpFam.handle l
+  | "mtype" => MTypeFam.handle l
   | f => .bad s!"unknown family {f}" ""
 
 partial def loop (h : IO.FS.Stream) (out : IO.FS.Stream) : IO Unit := do
